@@ -20,6 +20,7 @@ type VP9Frame struct {
 	BodyLen int           `json:"body_len"` // random bytes after the generated header prefix
 	Seed    uint64        `json:"seed"`
 	Toggle  bool          `json:"toggle,omitempty"` // the public FlexibleMode field is flipped before this frame; the picture id keeps running
+	MTU     uint16        `json:"mtu,omitempty"`    // 0 = the case's MTU
 }
 
 func (f *VP9Frame) bytes() ([]byte, int) {
@@ -51,6 +52,8 @@ type VP9DescCase struct {
 	Pre []vp9desc.Desc `json:"pre,omitempty"`
 	// Zero: zero-allocation mode (reduced feature set): well-formed packets accepted, bytes after the descriptor returned
 	Zero bool `json:"zero,omitempty"`
+	// Jumbo: this many further payload bytes follow (packets of 64 KiB and more: an RTP packet over TCP or a jumbo datagram)
+	Jumbo int `json:"jumbo,omitempty"`
 }
 
 type VP9HdrCase struct {
@@ -84,6 +87,11 @@ func checkC12Pay(r *run, c *VP9PayCase) (CaseInfo, error) {
 	flex := c.Flexible
 	for fi := range c.Frames {
 		f := &c.Frames[fi]
+		mtu := c.MTU
+		if f.MTU != 0 {
+			mtu = f.MTU // this frame is sent with another MTU than the previous ones
+			ci.class("mtu-changes-between-frames")
+		}
 		if f.Toggle {
 			flex = !flex
 			p.FlexibleMode = flex
@@ -91,19 +99,19 @@ func checkC12Pay(r *run, c *VP9PayCase) (CaseInfo, error) {
 		}
 		frame, _ := f.bytes()
 		orig := clone(frame)
-		pkts := p.Payload(c.MTU, frame)
+		pkts := p.Payload(mtu, frame)
 		if !bytes.Equal(frame, orig) {
 			return ci, failf("frame %d: payloader modified its input", fi)
 		}
 		if len(pkts) == 0 {
-			return ci, failf("frame %d (%d bytes, mtu %d, key=%v): no packets", fi, len(frame), c.MTU, !f.H.NonKey)
+			return ci, failf("frame %d (%d bytes, mtu %d, key=%v): no packets", fi, len(frame), mtu, !f.H.NonKey)
 		}
 		key := !f.H.NonKey && !f.H.ShowExistingFrame
 		var cat []byte
 		var parts [][]byte // the payload slices as returned, read again once the whole frame is decoded
 		for pi, pk := range pkts {
-			what := fmt.Sprintf("frame %d (%d bytes, mtu %d, flexible=%v, key=%v, profile %d, cs %d) packet %d/%d %s", fi, len(frame), c.MTU, flex, key, f.H.Profile, f.H.ColorSpace, pi, len(pkts), hx(pk))
-			if len(pk) > int(c.MTU) {
+			what := fmt.Sprintf("frame %d (%d bytes, mtu %d, flexible=%v, key=%v, profile %d, cs %d) packet %d/%d %s", fi, len(frame), mtu, flex, key, f.H.Profile, f.H.ColorSpace, pi, len(pkts), hx(pk))
+			if len(pk) > int(mtu) {
 				return ci, failf("%s: %d bytes exceed the MTU", what, len(pk))
 			}
 			vp := &codecs.VP9Packet{}
@@ -163,10 +171,16 @@ func checkC12Pay(r *run, c *VP9PayCase) (CaseInfo, error) {
 			}
 		}
 		if !bytes.Equal(cat, orig) {
-			return ci, failf("frame %d (%d bytes, mtu %d): payloads concatenate to %d bytes that differ from the frame", fi, len(frame), c.MTU, len(cat))
+			return ci, failf("frame %d (%d bytes, mtu %d): payloads concatenate to %d bytes that differ from the frame", fi, len(frame), mtu, len(cat))
 		}
 		if joined := bytes.Join(parts, nil); !bytes.Equal(joined, orig) {
-			return ci, failf("frame %d (%d bytes, mtu %d): the payload slices returned for its %d packets, read again after the last packet was decoded, no longer concatenate to the frame (a receiver collecting them gets %d wrong bytes)", fi, len(frame), c.MTU, len(parts), len(joined))
+			return ci, failf("frame %d (%d bytes, mtu %d): the payload slices returned for its %d packets, read again after the last packet was decoded, no longer concatenate to the frame (a receiver collecting them gets %d wrong bytes)", fi, len(frame), mtu, len(parts), len(joined))
+		}
+		// the frame is sent, the caller recycles the packet buffers (capacity included): later frames must not depend on them
+		for _, pk := range pkts {
+			for k, full := 0, pk[:cap(pk)]; k < len(full); k++ {
+				full[k] ^= 0xFF
+			}
 		}
 		if len(pkts) >= 2 {
 			ci.class("multi-packet")
@@ -241,6 +255,10 @@ func checkC12Desc(r *run, c *VP9DescCase) (CaseInfo, error) {
 		return ci, failf("harness bug: reference VP9 descriptor codec does not round-trip %s: %v", hx(db), err)
 	}
 	full := append(clone(db), c.Payload...)
+	if c.Jumbo > 0 {
+		full = append(full, expand(uint64(c.Jumbo), 0, c.Jumbo)...)
+		ci.class("jumbo-payload")
+	}
 	in := full
 	if c.Cut >= 0 && c.Cut < len(full) {
 		in = full[:c.Cut]
@@ -424,6 +442,13 @@ func genVP9PayCase(t *rapid.T) *VP9PayCase {
 			c.Frames[i].BodyLen %= 600
 		}
 	}
+	if rapid.IntRange(0, 4).Draw(t, "varymtu") == 0 {
+		for i := range c.Frames {
+			if genBool(t, "ownmtu") {
+				c.Frames[i].MTU = uint16(biased(t, "framemtu", minMTU, 65535, minMTU, minMTU+1, 100, 1200))
+			}
+		}
+	}
 	if rapid.IntRange(0, 299).Draw(t, "manypackets") == 173 { // a mid-range value: rapid favours the ends of a range
 		// a frame that needs more packets than there are sequence numbers: the smallest MTUs and 64 KiB or more
 		c.MTU = uint16(minMTU)
@@ -512,6 +537,9 @@ func genVP9DescCase1(t *rapid.T) *VP9DescCase {
 	}
 	c := &VP9DescCase{D: d, Cut: -1}
 	c.Payload = genBytesN(t, "payload", rapid.IntRange(0, 40).Draw(t, "plen"))
+	if rapid.IntRange(0, 99).Draw(t, "jumbopayload") == 61 {
+		c.Jumbo = rapid.SampledFrom([]int{65490, 65530, 65536, 70000}).Draw(t, "jumbopayloadlen")
+	}
 	if rapid.IntRange(0, 2).Draw(t, "docut") == 0 {
 		dl := len(vp9desc.Build(&d))
 		c.Cut = rapid.IntRange(0, dl).Draw(t, "cut")
@@ -520,7 +548,7 @@ func genVP9DescCase1(t *rapid.T) *VP9DescCase {
 	return c
 }
 
-const ruleC12 = "payloader: 1-4 frames whose uncompressed header prefix is written bit by bit by an independent writer (profiles 0-3 with reserved bit, show_existing_frame, key/non-key, all colour spaces incl. RGB, subsampling bits, size-1 in [0,65534]^2, garbage in reserved and trailing bits) followed by 0-5000 random bytes (one case in 60: a frame of 65520-200000 bytes; one in 300: a single frame that needs 65530-70000 packets at the smallest MTU), flexible and non-flexible mode (one case in six flips the public FlexibleMode field between frames), MTU >= 4 (>= 12 when a non-flexible key frame occurs) biased to the thresholds, initial picture id biased to 0,127,128,32766,32767,65535 or (one case in six) left to the library's default, then learned from the first packet; every packet is decoded by VP9Packet (a fresh one per packet, or one for the whole stream) and by an independent RFC 9628 descriptor parser: concatenation = frame, B/E placement, IsPartitionHead=B, F=mode, 15-bit id constant per frame and +1 per frame mod 2^15, <= MTU, non-flexible P=non-key and V/Y/width/height on the first packet of a key frame. descriptor: reference-built descriptors (I 7/15 bit, L, F with I, 1-3 P_DIFF, SS with N_S 0-7, Y, G, N_G 0-255 with R 0-3; SID 0-4 since pion supports 5 spatial layers by design) + payload, all truncations rejected; half of the cases decode 1-2 other descriptors into the same VP9Packet first; one case in eight runs in zero-allocation mode (only acceptance and the returned bytes are checked). header: vp9.Header.Unmarshal equals the writer's fields and rejects every short byte prefix. Non-trivial = >=2 packets, non-flexible key frame with profile>=1 or RGB, SS with picture groups, >=2 P_DIFF, truncation, key-frame header; distinct = FNV-64 of the JSON case"
+const ruleC12 = "payloader: 1-4 frames whose uncompressed header prefix is written bit by bit by an independent writer (profiles 0-3 with reserved bit, show_existing_frame, key/non-key, all colour spaces incl. RGB, subsampling bits, size-1 in [0,65534]^2, garbage in reserved and trailing bits) followed by 0-5000 random bytes (one case in 60: a frame of 65520-200000 bytes; one in 300: a single frame that needs 65530-70000 packets at the smallest MTU), flexible and non-flexible mode (one case in six flips the public FlexibleMode field between frames), MTU >= 4 (>= 12 when a non-flexible key frame occurs) biased to the thresholds (one case in five changes the MTU between frames), initial picture id biased to 0,127,128,32766,32767,65535 or (one case in six) left to the library's default, then learned from the first packet; every packet is decoded by VP9Packet (a fresh one per packet, or one for the whole stream) and by an independent RFC 9628 descriptor parser: concatenation = frame, B/E placement, IsPartitionHead=B, F=mode, 15-bit id constant per frame and +1 per frame mod 2^15, <= MTU, non-flexible P=non-key and V/Y/width/height on the first packet of a key frame. descriptor: reference-built descriptors (I 7/15 bit, L, F with I, 1-3 P_DIFF, SS with N_S 0-7, Y, G, N_G 0-255 with R 0-3; SID 0-4 since pion supports 5 spatial layers by design) + payload (0-40 bytes, one case in a hundred followed by 64 KiB more), all truncations rejected; half of the cases decode 1-2 other descriptors into the same VP9Packet first; one case in eight runs in zero-allocation mode (only acceptance and the returned bytes are checked). header: vp9.Header.Unmarshal equals the writer's fields and rejects every short byte prefix. Non-trivial = >=2 packets, non-flexible key frame with profile>=1 or RGB, SS with picture groups, >=2 P_DIFF, truncation, key-frame header; distinct = FNV-64 of the JSON case"
 
 func TestC12(t *testing.T) {
 	r := begin(t, "C12", "exploration", ruleC12)
